@@ -121,7 +121,13 @@ def strategy(tier: str):
         st.sampled_from((b"\xff\xfe", b"\xef\xbb\xbf{}", b"\xef\xbb\xbf", b"{\"1\": \xff}", b"\x00", b"{}\x00", b"nul", b"[]", b"{\"1\":{}}", b"1", b"\"x\"", b"{\"a\":1}{}", b"  ", b"\n")),
     ).map(lambda b: {"kind": "content", "origin": "bytes", "data": b.decode("latin-1")})
     special = st.sampled_from(("missing-empty-registry", "missing-with-registry", "empty-file", "directory", "missing-after-start", "missing-after-save", "missing-after-load", "missing-after-failed-load", "missing-with-odd-text")).map(lambda w: {"kind": "special", "what": w})
-    return st.one_of(_mutated(), _mutated(), _mutated(), _prefix(), arbitrary_json, arbitrary_json, raw, special)
+    base = st.one_of(_mutated(), _mutated(), _mutated(), _prefix(), arbitrary_json, arbitrary_json, raw, special)
+
+    def _mode(pair):
+        case, mode = pair
+        return {**case, mode: True} if mode else case
+
+    return st.tuples(base, st.sampled_from((None, None, None, None, "debug_log", "prior_session"))).map(_mode)
 
 
 def enumerate_cases(tier: str):
@@ -150,6 +156,13 @@ def enumerate_cases(tier: str):
         yield {"kind": "content", "origin": "deep", "data": '{"1":{"node_id":1,"node_type":1,"protocol_version":"2","children":' + '{"1":' * depth}
     for what in ("missing-empty-registry", "missing-with-registry", "empty-file", "directory", "missing-after-start", "missing-after-save", "missing-after-load", "missing-after-failed-load", "missing-with-odd-text"):
         yield {"kind": "special", "what": what}
+        yield {"kind": "special", "what": what, "debug_log": True}
+        yield {"kind": "special", "what": what, "prior_session": True}
+    for text in ("", "{}", " ", "\n", '{"1": {"node_id": 1, "node_type": 17, "protocol_version": "2.0"}}', '{"1": {"node_id": 1, "node_ty', "[]", "null",
+                 '{"1": {"sensor_id": 1, "type": 17, "protocol_version": "2.0", "children": {}}}', '{"7": {"node_id": 7, "node_type": 17, "protocol_version": "2.0", "children": {}}, "9": {"node_id": 9, "node_type": 18, "protocol_version": "2.0"}}'):
+        for prefill in (False, True):
+            yield {"kind": "content", "origin": "modes", "data": text, "debug_log": True, "prefill": prefill}
+            yield {"kind": "content", "origin": "modes", "data": text, "prior_session": True, "prefill": prefill}
     fixture = {"1": {"sensor_id": 1, "children": {"1": {"id": 1, "type": 38, "description": "", "values": {"49": "x"}}}, "type": 17, "sketch_name": "s", "sketch_version": "1", "battery_level": 0, "protocol_version": "2.3.2", "heartbeat": 0}}
     text = json.dumps(fixture, indent=2)
     for cut in range(len(text) + 1):
@@ -240,6 +253,12 @@ def run_case(case: dict) -> Outcome:
 
     async def go() -> Outcome | None:
         gateway = Gateway(env.RecordingTransport(), Config(persistence_file=path))
+        if case.get("prior_session"):
+            # the same Persistence object already served a session (started and stopped); what it left behind is removed before the set-up
+            await gateway.persistence.start()
+            await gateway.persistence.stop()
+            if os.path.isfile(path):
+                os.unlink(path)
         if case["kind"] == "special":
             what = case["what"]
             if what == "missing-with-registry":
@@ -268,9 +287,12 @@ def run_case(case: dict) -> Outcome:
             elif what in ("missing-after-save", "missing-after-load"):
                 # the same Persistence object wrote or read the file earlier; the file has been removed since and the registry is unchanged
                 env.install_registry(gateway.nodes, {"5": {"sketch_name": "saved before", "children": {"1": {"child_type": 6, "values": {"0": "1"}}}}})
-                await gateway.persistence.save()
-                if what == "missing-after-load":
-                    await gateway.persistence.load()
+                try:
+                    await gateway.persistence.save()
+                    if what == "missing-after-load":
+                        await gateway.persistence.load()
+                except Exception as err:  # noqa: BLE001
+                    return fail(f"load-leak:setup:{env.exc_sig(err)}", f"{what}: saving and loading a valid registry in a writable directory raised {err!r}")
                 os.unlink(path)
             elif what == "missing-after-start":
                 env.install_registry(gateway.nodes, {"4": {"sketch_name": "started first"}})
@@ -312,6 +334,7 @@ def run_case(case: dict) -> Outcome:
         if case.get("prefill"):
             # reloading into a registry that already holds nodes (second session, or nodes registered before the load)
             env.install_registry(gateway.nodes, {"1": {"children": {"1": {"child_type": 6, "values": {"0": "old"}}}}, "3": {"children": {"9": {"child_type": 3}}}})
+        held = env.snapshot(gateway.nodes)
         try:
             json.loads(data.decode("utf-8"))
             info["json_ok"] = True
@@ -326,12 +349,13 @@ def run_case(case: dict) -> Outcome:
             return None
         except Exception as err:  # noqa: BLE001
             return fail(f"load-leak:{env.exc_sig(err)}", f"file content {data[:300]!r} ({origin}): load raised {type(err).__name__}: {str(err)[:200]}")
-        if data == b"" and gateway.nodes:
-            return fail("empty-file-not-empty-registry", "empty file loaded to a non-empty registry")
+        if data == b"" and env.snapshot(gateway.nodes) != held:
+            return fail("empty-file-not-empty-registry", "an empty file loaded as something other than an empty registry (the registry changed)")
         return None
 
     try:
-        bad = env.run(go())
+        with env.debug_logging(bool(case.get("debug_log"))):
+            bad = env.run(go())
     finally:
         shutil.rmtree(scratch, ignore_errors=True)
     classes = (f"origin={origin}", "json-valid" if info["json_ok"] else "not-json", "rejected" if info["raised"] else "loaded")
